@@ -36,6 +36,7 @@ class Interp(object):
         self.ix = index
         self.on_return = on_return           # callable(func, state, kind, value)
         self.attr_stubs = dict(attr_stubs or {})   # 'Cls.attr' -> fn(interp, st, base, node) -> outcomes
+        self.at_loop_head = None             # callable(interp, state, for_node, seq): sound normalisation hook
         self.track_len = False               # keep len()/counter facts of abstract loops (outline roll-up)
         self.stubs = dict(stubs or {})       # fullname or 'Class.method' or name -> stub(interp, st, args, kwargs, node)
         self.opaque = set(opaque or ())      # dotted names / attribute names treated as pure unknown calls
@@ -89,6 +90,11 @@ class Interp(object):
             return res
         if v is None or v is False:
             return [(st, False)]
+        if hasattr(v, "abs_truth"):
+            r = v.abs_truth()
+            if isinstance(r, bool):
+                return [(st, r)]
+            return self.truth(st, r, node)
         if v is True or v is GE2:
             return [(st, True)]
         if isinstance(v, (int, float, str, bytes, tuple, frozenset, list, set, dict)):
@@ -101,6 +107,15 @@ class Interp(object):
                 seq = o.fields.get("@seq")
                 if seq is not None and ("#n:" + seq.name) in st.ghost:
                     return [(st, st.ghost["#n:" + seq.name] != 0)]
+                if o.base == "split" and o.count == 0:
+                    s2 = st.fork()
+                    st.wobj(v).count = 1
+                    st.note("%s: list is not empty" % (self.loc(node) if node is not None else "?"))
+                    e = s2.wobj(v)
+                    e.items = []
+                    e.base = None
+                    s2.note("%s: list is empty" % (self.loc(node) if node is not None else "?"))
+                    return [(st, True), (s2, False)]
                 ln = self.abs_len(st, v)
                 return self.truth(st, ln, node)
             return [(st, True)]
@@ -174,7 +189,10 @@ class Interp(object):
         self.stats["calls"] += 1
         self.stats["inlined"].add(func.fullname)
         fnode = func.node
-        if any(isinstance(n, (ast.Yield, ast.YieldFrom)) for n in ast.walk(fnode)):
+        is_gen = getattr(fnode, "_is_gen", None)
+        if is_gen is None:
+            is_gen = fnode._is_gen = any(isinstance(n, (ast.Yield, ast.YieldFrom)) for n in ast.walk(fnode))
+        if is_gen:
             raise Unsupported("generator function %s (needs a stub)" % func.fullname)
         frame = {}
         a = fnode.args
@@ -691,6 +709,12 @@ class Interp(object):
             seq = o.fields.get("@seq")
             if isinstance(seq, AbsSeq):
                 return ("abs", seq)
+            if o.kind in ("list", "set") and o.items is None:
+                elem = o.fields.get("@elem")
+                nonempty = o.base is None and o.count != 0
+                lab = o.label or "list"
+                return ("abs", AbsSeq("abs:" + lab, lambda interp, s, _e=elem, _o=o.open: [
+                    (s, _e if _e is not None else Top("elem:" + lab, True), "element")], nonempty))
             if isinstance(o.cls, ClassInfo):
                 it_m = o.cls.lookup("__iter__")
                 if it_m is not None:
@@ -698,6 +722,8 @@ class Interp(object):
                     if len(outs) == 1 and outs[0][1] == "val":
                         return self.iter_values(outs[0][0], outs[0][2], node)
             raise Unsupported("iteration over %s object at %s" % (o.clsname(), self.loc(node)))
+        if hasattr(it, "abs_iter"):
+            return ("abs", it.abs_iter(self, st, node))
         if isinstance(it, Top):
             tag = it.tag
             return ("abs", AbsSeq("top:" + tag, lambda interp, s, _t=tag, _i=it.input: [(s, Top("elem:" + _t, _i), "elem")]))
@@ -789,6 +815,12 @@ class Interp(object):
                                 elif inc == 0:
                                     tr.append((name, "lt"))
                             s2.ghost[track_key] = tuple(tr)
+                            if self.at_loop_head is not None:
+                                self.at_loop_head(self, s2, node, seq)
+                            # the loop variables are dead at the loop head (re-assigned by the next element)
+                            for tn in _target_names(node.target):
+                                if tn in s2.frames[-1]:
+                                    s2.frames[-1][tn] = Top("loopvar:" + tn, True)
                             key = (seq.name, outer, s2.key())
                             if key not in seen:
                                 seen[key] = True
@@ -861,6 +893,17 @@ class Interp(object):
                         nxt.append((s2, vals + [v]))
             results = nxt
         return [(s, "val", vals) for (s, vals) in results] + raised
+
+
+def _target_names(t):
+    if isinstance(t, ast.Name):
+        return [t.id]
+    if isinstance(t, (ast.Tuple, ast.List)):
+        out = []
+        for e in t.elts:
+            out.extend(_target_names(e))
+        return out
+    return []
 
 
 def _restore(st, cnt_key, outer_cnt, track_key, outer_track, keep_track=False):
